@@ -206,7 +206,12 @@ func ParseStrace(logf, root, ackPath string, existing map[string]bool) ([]Op, er
 				return fmt.Errorf("bad path in %s(%s)", name, argstr)
 			}
 			if !filepath.IsAbs(p) {
-				return nil // the children always use absolute paths under the root
+				// relative to a directory descriptor (os.RemoveAll walks with openat/unlinkat)
+				d, ok := fds[int(atoi(a[0]))]
+				if name != "openat" || !ok {
+					return nil
+				}
+				p = filepath.Join(d.path, p)
 			}
 			p = filepath.Clean(p)
 			fds[int(rv)] = &fdent{path: p}
@@ -315,6 +320,11 @@ func ParseStrace(logf, root, ackPath string, existing map[string]bool) ([]Op, er
 				ps = a[1]
 			}
 			if p, ok := unhexStr(ps); ok {
+				if !filepath.IsAbs(p) && name == "unlinkat" {
+					if d, ok := fds[int(atoi(a[0]))]; ok {
+						p = filepath.Join(d.path, p)
+					}
+				}
 				if r, ok := rel(p); ok {
 					delete(exists, r)
 					ops = append(ops, Op{Kind: "unlink", Path: r})
